@@ -112,3 +112,43 @@ CONTRACTS["data:ProjectData._write_pops#one_population"] = dict(
     schema=schema, fragment={"iter": "self.pops.items()"}, make_env=_env_pop_write, call_stubs={"sheet.write": _rec, "update_widths": (lambda it, *a, **k: None), "xlrc": (lambda it, *a, **k: "$A$2")},
     ensures=[("C16.code_name_label_and_type_go_into_the_three_columns_the_reader_reads", "sheet.CELLS[1, 0] == 'adults' and sheet.CELLS[1, 1] == 'Adults 15+' and sheet.CELLS[1, 2] == 'hum' and len(sheet.CELLS) == 3 and current_row == 1")],
     defined_props=["C16"])
+
+
+# ---- the transfers / interactions sheet of a databook as a whole (ProjectData._read_transfers / _read_interpops): the tables of the sheet are taken three at a time, in order,
+# each triple becomes one transfer / interaction of the right kind; a number of tables that is no multiple of three and a repeated code name are refused
+def _env_read_tdcs(n_tables, names):
+    def make(it):
+        from pyvc.interp import PyObjV
+        from pyvc import source
+
+        return {"self": PyObjV("ProjectData", source.load("data"), {"transfers": ["stale"], "interpops": ["stale"]}), "sheet": "SHEET", "TABLES": ["table %d" % i for i in range(n_tables)], "NAMES": list(names), "CALLS": []}
+
+    return make
+
+
+def _ghost_read_tables(it, sheet):
+    return it.live_env["TABLES"], list(range(len(it.live_env["TABLES"])))
+
+
+def _ghost_from_tables(it, tables, kind):
+    from pyvc.interp import PyObjV
+    from pyvc import source
+
+    calls = it.live_env["CALLS"]
+    calls.append((list(tables), kind))
+    return PyObjV("TimeDependentConnections", source.load("excel"), {"code_name": it.live_env["NAMES"][len(calls) - 1], "TABLES": list(tables)})
+
+
+_tdc_sheet_stubs = {"read_tables": _ghost_read_tables, "TimeDependentConnections.from_tables": _ghost_from_tables}
+for _fn, _field, _kind in (("_read_transfers", "transfers", "transfer"), ("_read_interpops", "interpops", "interaction")):
+    CONTRACTS["data:ProjectData.%s#two_tables_of_three" % _fn] = dict(
+        schema=schema, make_env=_env_read_tdcs(6, ("age", "mig")), call_stubs=_tdc_sheet_stubs,
+        ensures=[("C16.each_consecutive_triple_of_tables_becomes_one_%s_in_order" % _kind,
+                  "len(self.%s) == 2 and self.%s[0].code_name == 'age' and self.%s[1].code_name == 'mig' and CALLS[0] == (['table 0', 'table 1', 'table 2'], %r) and CALLS[1] == (['table 3', 'table 4', 'table 5'], %r) and len(CALLS) == 2" % (_field, _field, _field, _kind, _kind))],
+        defined_props=["C16", "C18"])
+    CONTRACTS["data:ProjectData.%s#empty_sheet" % _fn] = dict(
+        schema=schema, make_env=_env_read_tdcs(0, ()), call_stubs=_tdc_sheet_stubs, ensures=[("C16.a_sheet_without_tables_gives_none", "self.%s == [] and len(CALLS) == 0" % _field)], defined_props=["C16"])
+    CONTRACTS["data:ProjectData.%s#tables_not_in_threes" % _fn] = dict(
+        schema=schema, make_env=_env_read_tdcs(5, ("age", "mig")), call_stubs=_tdc_sheet_stubs, raises={"AssertionError": "True"}, raises_props=["C18"], ensures=[], defined_props=["C16", "C18"])
+    CONTRACTS["data:ProjectData.%s#repeated_code_name" % _fn] = dict(
+        schema=schema, make_env=_env_read_tdcs(6, ("age", "age")), call_stubs=_tdc_sheet_stubs, raises={"Exception": "True"}, raises_props=["C18"], ensures=[], defined_props=["C16", "C18"])
